@@ -125,8 +125,10 @@ C10_Q = [
     H("x10_parse_number", "parse_number on 'x'? + <=2 leading zeros + <=8 arbitrary ASCII chars: every code point 0..0x10FFFF and beyond, both radices, case variants, signs, non-digits",
       ["supplementary plane character", "surrogate rejected", "out of range rejected"], cost=4),
     H("x10_unescape_n3", "unescape on every ASCII string of <=3 bytes", ["malformed reference"], cost=5),
-    H("x10_unesc_s2", "unescape on '&??;' with 2 symbolic ASCII bytes (lt, gt, unknown names, nested & and ;)", ["reference expanded", "malformed reference"], cost=5),
-    H("x10_unesc_num", "unescape on '&#??;' with 2 symbolic ASCII bytes", ["reference expanded", "malformed reference"], cost=5),
+    H("x10_unesc_s1a", "unescape on '&?t;' with 1 symbolic ASCII byte (lt, gt, unknown names, nested & and ;)", ["reference expanded", "malformed reference"], cost=5),
+    H("x10_unesc_s1b", "unescape on '&l?;' with 1 symbolic ASCII byte", ["reference expanded", "malformed reference"], cost=5),
+    H("x10_unesc_n1", "unescape on '&#?;' with 1 symbolic ASCII byte", ["reference expanded", "malformed reference"], cost=5),
+    H("x10_unesc_h1", "unescape on '&#x?;' with 1 symbolic ASCII byte", ["reference expanded", "malformed reference"], cost=5),
     H("x10_esc_full_1", "escape on every 1-byte ASCII string: table image, forbidden characters absent, borrowed iff unchanged", ["something escaped"], cost=6),
     H("x10_esc_part_1", "partial_escape on every 1-byte ASCII string", ["something escaped"], cost=6),
     H("x10_esc_min_1", "minimal_escape on every 1-byte ASCII string", ["something escaped"], cost=6),
@@ -138,7 +140,9 @@ C10_Q = [
 ]
 C10_T = [
     H("x10_unescape_n4", "unescape on every ASCII string of <=4 bytes", ["reference expanded"], cost=9, timeout_thorough=3600),
-    H("x10_unesc_s3", "unescape on '&???;' (amp and look-alikes)", ["reference expanded"], cost=7),
+    H("x10_unesc_s2", "unescape on '&??;' with 2 symbolic ASCII bytes", ["reference expanded"], cost=9, timeout_thorough=3600, mem_gb=30),
+    H("x10_unesc_num", "unescape on '&#??;' with 2 symbolic ASCII bytes", ["reference expanded"], cost=9, timeout_thorough=3600, mem_gb=30),
+    H("x10_unesc_s3", "unescape on '&???;' (amp and look-alikes)", ["reference expanded"], cost=9, timeout_thorough=3600, mem_gb=30),
     H("x10_unesc_s4", "unescape on '&????;' (apos, quot and look-alikes)", ["reference expanded"], cost=8),
     H("x10_unesc_hex", "unescape on '&#x??;'", ["reference expanded"], cost=7),
     H("x10_unesc_two", "unescape on '?&lt;?&' (text around a reference, unterminated second one)", [], cost=7),
@@ -187,7 +191,7 @@ C19_Q = [
     H("w19_pi", "one Writer::write_event(pi) from an arbitrary indentation state (should_line_break, depth<=200, indent char, width 0..9) vs the plain writer, through a recording sink", [], cost=1),
     H("w19_doctype", "one Writer::write_event(doctype) from an arbitrary indentation state (should_line_break, depth<=200, indent char, width 0..9) vs the plain writer, through a recording sink", [], cost=1),
     H("w19_eof", "one Writer::write_event(eof) from an arbitrary indentation state (should_line_break, depth<=200, indent char, width 0..9) vs the plain writer, through a recording sink", [], cost=1),
-    H("w19_start_grow", "same, Start, indent buffer of 128 and depth 110..128: growth past the preallocation", ["indent longer than the preallocated buffer"], cost=2),
+    H("w19_start_grow", "same, Start, indent buffer of 128 and depth 110..128: growth past the preallocation", ["indent buffer grown past the preallocation"], cost=2),
     H("w19_end_grow", "same, End", [], cost=2),
     H("w19_comment_grow", "same, Comment", [], cost=2),
 ]
@@ -202,6 +206,41 @@ C08_W = [
     H("w8_pi_n3", "plain Writer::write_event(pi) with a symbolic payload <=3 ASCII bytes into a Vec: exactly open+payload+close", [], cost=2),
     H("w8_doctype_n3", "plain Writer::write_event(doctype) with a symbolic payload <=3 ASCII bytes into a Vec: exactly open+payload+close", [], cost=2),
     H("w8_eof_n3", "plain Writer::write_event(eof) with a symbolic payload <=3 ASCII bytes into a Vec: exactly open+payload+close", [], cost=2),
+]
+
+C13_Q = [
+    H("c13_name_n2", "XmlName::try_from on every UTF-8 string of <=2 bytes vs the XML 1.1 Name production", ["name rejected"], crate="serde"),
+    H("c13_name_n3", "XmlName::try_from on every UTF-8 string of <=3 bytes", ["long name accepted", "name rejected"], crate="serde", cost=2),
+    H("c13_esc_list_t0l0", "escape_list for every 1-byte ASCII value, target Text, level Full", ["something escaped"], crate="serde", cost=3),
+    H("c13_esc_list_t0l1", "escape_list for every 1-byte ASCII value, target Text, level Partial", ["something escaped"], crate="serde", cost=3),
+    H("c13_esc_list_t0l2", "escape_list for every 1-byte ASCII value, target Text, level Minimal", ["something escaped"], crate="serde", cost=3),
+    H("c13_esc_list_t1l0", "escape_list for every 1-byte ASCII value, target DoubleQAttr, level Full", ["something escaped"], crate="serde", cost=3),
+    H("c13_esc_list_t1l1", "escape_list for every 1-byte ASCII value, target DoubleQAttr, level Partial", ["something escaped"], crate="serde", cost=3),
+    H("c13_esc_list_t1l2", "escape_list for every 1-byte ASCII value, target DoubleQAttr, level Minimal", ["something escaped"], crate="serde", cost=3),
+    H("c13_esc_list_t2l0", "escape_list for every 1-byte ASCII value, target SingleQAttr, level Full", ["something escaped"], crate="serde", cost=3),
+    H("c13_esc_list_t2l1", "escape_list for every 1-byte ASCII value, target SingleQAttr, level Partial", ["something escaped"], crate="serde", cost=3),
+    H("c13_esc_list_t2l2", "escape_list for every 1-byte ASCII value, target SingleQAttr, level Minimal", ["something escaped"], crate="serde", cost=3),
+    H("c13_esc_item_t0l0", "escape_item for every 1-byte ASCII value, target Text, level Full", ["something escaped"], crate="serde", cost=3),
+    H("c13_esc_item_t0l1", "escape_item for every 1-byte ASCII value, target Text, level Partial", ["something escaped"], crate="serde", cost=3),
+    H("c13_esc_item_t0l2", "escape_item for every 1-byte ASCII value, target Text, level Minimal", ["something escaped"], crate="serde", cost=3),
+    H("c13_esc_item_t1l0", "escape_item for every 1-byte ASCII value, target DoubleQAttr, level Full", ["something escaped"], crate="serde", cost=3),
+    H("c13_esc_item_t1l1", "escape_item for every 1-byte ASCII value, target DoubleQAttr, level Partial", ["something escaped"], crate="serde", cost=3),
+    H("c13_esc_item_t1l2", "escape_item for every 1-byte ASCII value, target DoubleQAttr, level Minimal", ["something escaped"], crate="serde", cost=3),
+    H("c13_esc_item_t2l0", "escape_item for every 1-byte ASCII value, target SingleQAttr, level Full", ["something escaped"], crate="serde", cost=3),
+    H("c13_esc_item_t2l1", "escape_item for every 1-byte ASCII value, target SingleQAttr, level Partial", ["something escaped"], crate="serde", cost=3),
+    H("c13_esc_item_t2l2", "escape_item for every 1-byte ASCII value, target SingleQAttr, level Minimal", ["something escaped"], crate="serde", cost=3),
+]
+C13_T = [
+    H("c13_name_n4", "XmlName::try_from on every UTF-8 string of <=4 bytes", ["long name accepted"], crate="serde", cost=5),
+    H("c13_ty0_attr", "whole serializer: struct{@a: 1 symbolic byte, $text: hostile literal}, symbolic quote level/indent/expand; output scanned for well-formedness", ["serialized"], crate="serde", cost=9, timeout_thorough=5400, mem_gb=30),
+    H("c13_ty5_root", "whole serializer: root name = 1 symbolic byte", ["serialized", "rejected"], crate="serde", cost=9, timeout_thorough=5400, mem_gb=30),
+]
+C17_Q = [
+    H("c17_detect", "encoding::detect_encoding on every input of <=4 bytes vs the documented table", ["utf-8 bom", "utf-16le signature"], crate="enc"),
+    H("c17_bom_n2", "Reader<&[u8]> (feature encoding) on EF BB BF + <=2 symbolic bytes: first event never contains the mark, decoder is UTF-8", ["text after bom"], crate="enc", cost=5),
+]
+C07_T = [
+    H("c07_s_k1", "deserialize struct S{a: String, b: Vec<String>} over scripted events: root + 1 solver-chosen inner event + tail, truncation anywhere", [], crate="serde", cost=9, timeout_thorough=5400, mem_gb=30),
 ]
 
 PLAN = {
@@ -228,6 +267,8 @@ PLAN = {
   "C02": {"quick": C02_Q, "thorough": C02_T, "labels": ["C02", "C01"], "evidence": {}},
   "C18": {"quick": C18_Q, "thorough": [], "labels": ["C18", "C02", "C01"], "evidence": {}},
   "C05": {"quick": C05_Q, "thorough": C05_T, "evidence": {}},
+  "C13": {"quick": C13_Q, "thorough": C13_T, "evidence": {}},
+  "C17": {"quick": C17_Q, "thorough": [], "evidence": {}},
   "C10": {"quick": C10_Q, "thorough": C10_T, "evidence": {}},
   "C11": {"quick": C11_Q, "thorough": C11_T, "evidence": {}},
  },
